@@ -205,6 +205,40 @@ def correspond(tier):
             cr.disagree(input={"kernel": kernel, "resample": resample, "blobs": blobs, "seed": seed},
                         impl={"returned": True, "evidence": ev, "recomputed": z1}, model={"guard_continue": m})
         cr.sample({"config": [kernel, resample, blobs], "beta": st.get_current("beta"), "ess": ess, "n_total": s._core.n_total, "evidence": ev})
+    # run() entered through a checkpoint, asking for MORE samples than the run that wrote it: the postconditions are about the
+    # n_total passed to THIS run()
+    import os
+    import shutil
+    import tempfile
+    from tempest import Sampler
+    from tempest.tools import effective_sample_size
+    from translate import g1_constants
+    tol = g1_constants.extract()["TERM_BETA_TOL"]
+    for kernel, n_a, n_b in (("rwm", 48, 192), ("tpcn", 64, 64)) if tier == "quick" else (("rwm", 48, 192), ("tpcn", 64, 64), ("tpcn", 48, 256), ("rwm", 96, 97)):
+        d = tempfile.mkdtemp(prefix="tv12_")
+        try:
+            seed = rng.randrange(2 ** 31)
+            mk = lambda: Sampler(lambda u: 8.0 * u - 4.0, lambda x: -0.5 * float(np.sum((x - 0.5) ** 2)) * 3.0, 2, n_particles=24,
+                                 clustering=False, sample=kernel, output_dir=d, n_steps=1, n_max_steps=2)
+            np.random.seed(seed)
+            with _quiet(), warnings.catch_warnings():
+                warnings.simplefilter("ignore")
+                mk().run(n_total=n_a, progress=False, save_every=2)
+                cks = sorted(f for f in os.listdir(d) if f.endswith(".state"))
+                s2 = mk()
+                s2.run(n_total=n_b, progress=False, resume_state_path=os.path.join(d, cks[len(cks) // 2]))
+            logw, z1 = s2.state.compute_logw_and_logz(1.0)
+            ess = float(effective_sample_size(np.exp(logw - np.max(logw))))
+            line = f"term.F tol={f2hex(tol)} beta={f2hex(s2.state.get_current('beta'))} ess={f2hex(ess)} ntotal={f2hex(float(n_b))}"
+            m = drv.batch([line])[0]
+            key = {"kernel": kernel, "first_n_total": n_a, "resumed_n_total": n_b, "checkpoint": cks[len(cks) // 2], "seed": seed}
+            cr.case(key, True)
+            cr.count("resumed_with_larger_n_total" if n_b > n_a else "resumed_same_n_total")
+            if m != "0" or f2hex(s2.evidence()[0]) != f2hex(z1):
+                cr.disagree(input=key, impl={"returned": True, "beta": s2.state.get_current("beta"), "ess": ess, "evidence": s2.evidence()[0], "recomputed": z1},
+                            model={"guard_continue_for_requested_n_total": m}, resume=True)
+        finally:
+            shutil.rmtree(d, ignore_errors=True)
     return [cp, ct, cr]
 
 
@@ -290,9 +324,46 @@ def oracle_guard(s):
     return bad
 
 
+def oracle_resume(rng):
+    """run(n_total=B, resume_state_path=checkpoint of a run with n_total=A < B) must end with ESS >= B"""
+    import os
+    import shutil
+    import tempfile
+    from tempest import Sampler
+    from tempest.tools import effective_sample_size
+    bad = []
+    for kernel, n_a, n_b in (("rwm", 48, 192), ("tpcn", 48, 256)):
+        d = tempfile.mkdtemp(prefix="tv12_")
+        try:
+            seed = rng.randrange(2 ** 31)
+            mk = lambda: Sampler(lambda u: 8.0 * u - 4.0, lambda x: -0.5 * float(np.sum((x - 0.5) ** 2)) * 3.0, 2, n_particles=24,
+                                 clustering=False, sample=kernel, output_dir=d, n_steps=1, n_max_steps=2)
+            np.random.seed(seed)
+            with _quiet(), warnings.catch_warnings():
+                warnings.simplefilter("ignore")
+                mk().run(n_total=n_a, progress=False, save_every=2)
+                for ck in sorted(f for f in os.listdir(d) if f.endswith(".state")):
+                    s2 = mk()
+                    s2.run(n_total=n_b, progress=False, resume_state_path=os.path.join(d, ck))
+                    logw, _ = s2.state.compute_logw_and_logz(1.0)
+                    ess = float(effective_sample_size(np.exp(logw - np.max(logw))))
+                    beta = s2.state.get_current("beta")
+                    if not (1.0 - beta < 1e-4 and ess >= n_b):
+                        bad.append({"what": f"run(n_total={n_b}, resume_state_path={ck}) of a run written with n_total={n_a} returned with beta={beta!r}, ESS={ess:.1f} < {n_b}",
+                                    "config": {"kernel": kernel, "resample": "mult", "blobs": False, "n_total": n_a}, "seed": seed, "resume": True})
+                        return bad
+        finally:
+            shutil.rmtree(d, ignore_errors=True)
+    return bad
+
+
 def search(tier, hints):
     rng = common.rng_for("C12.search")
     found = []
+    try:
+        found += oracle_resume(rng)
+    except Exception as e:  # noqa
+        found.append({"what": f"resumed run raised {type(e).__name__}: {e}", "config": ["resume"]})
     try:
         s0, seed0 = _make_run(rng, "rwm", "syst", False, 64)
         for b in oracle_guard(s0):
@@ -325,6 +396,9 @@ def replay(obj):
         from . import witnesses
         return witnesses.ALL[f["replay"]["witness"]]()
     import random
+    if f.get("resume"):
+        b = oracle_resume(common.rng_for("C12.search"))
+        return {"fails": bool(b), "detail": b[:1]}
     cfg, seed = f["config"], f["seed"]
     from tempest import Sampler
     blobs = cfg["blobs"]
